@@ -3305,6 +3305,13 @@ func (h *RequestHeader) parseHeaders(buf []byte, blockEnd int) (int, error) {
 		v := peekArgBytes(h.h, strConnection)
 		h.connectionClose = !hasHeaderValue(v, strKeepAlive)
 	}
+	if transferEncodingSeen && (contentLengthSeen || h.contentLength != -1) {
+		// RFC 9112 sections 6.1 and 6.3: a message carrying both Content-Length
+		// and Transfer-Encoding, or a Transfer-Encoding whose final coding isn't
+		// chunked, has ambiguous framing. The connection must be closed after
+		// responding to it, whatever the Connection header asked for.
+		h.connectionClose = true
+	}
 	return s.r, nil
 }
 
